@@ -332,6 +332,8 @@ impl<K: CacheKey + 'static> DiskCache<K> {
             fs::create_dir_all(parent).map_err(CacheError::Io)?;
         }
 
+        #[cfg(feature = "verif-hooks")]
+        crate::verif_hooks::sched_point("disk.write.before_open");
         {
             let mut file = OpenOptions::new()
                 .write(true)
@@ -340,6 +342,8 @@ impl<K: CacheKey + 'static> DiskCache<K> {
                 .open(&temp_path)
                 .map_err(CacheError::Io)?;
 
+            #[cfg(feature = "verif-hooks")]
+            crate::verif_hooks::sched_point("disk.write.before_write");
             file.write_all(data).map_err(CacheError::Io)?;
             file.flush().map_err(CacheError::Io)?;
 
@@ -356,6 +360,8 @@ impl<K: CacheKey + 'static> DiskCache<K> {
             }
         }
 
+        #[cfg(feature = "verif-hooks")]
+        crate::verif_hooks::sched_point("disk.write.before_rename");
         // Atomic rename
         fs::rename(&temp_path, path).map_err(CacheError::Io)?;
 
@@ -492,6 +498,8 @@ impl<K: CacheKey + 'static> AsyncCache<K> for DiskCache<K> {
 
         if let Some(entry) = entry_info {
             if entry.is_expired() {
+                #[cfg(feature = "verif-hooks")]
+                crate::verif_hooks::sched_point("disk.get.expired.before_remove");
                 // Remove expired entry
                 if let Ok(mut index) = self.index.write() {
                     index.remove(key);
@@ -507,9 +515,13 @@ impl<K: CacheKey + 'static> AsyncCache<K> for DiskCache<K> {
                 return Ok(None);
             }
 
+            #[cfg(feature = "verif-hooks")]
+            crate::verif_hooks::sched_point("disk.get.before_read");
             // Read file content
             match self.read_file(&entry.file_path).await {
                 Ok(data) => {
+                    #[cfg(feature = "verif-hooks")]
+                    crate::verif_hooks::sched_point("disk.get.before_touch");
                     // Update access time
                     if let Ok(mut index) = self.index.write()
                         && let Some(entry) = index.get_mut(key)
@@ -590,6 +602,8 @@ impl<K: CacheKey + 'static> AsyncCache<K> for DiskCache<K> {
         // Write data to disk
         self.write_file(&file_path, &value).await?;
 
+        #[cfg(feature = "verif-hooks")]
+        crate::verif_hooks::sched_point("disk.put.before_index");
         // Update index
         {
             let mut index = self
